@@ -92,7 +92,7 @@ def seg_project(evs, what):
 
 def judge(hid, line, lifetimes, h, mline, synth_val, project="full"):
     """-> dict(corr=[...], c02=[...], c03=[...], c12=[...], c17=[...], crashed=bool, nontrivial=tuple)"""
-    lifetimes = [[o for o in ops if o not in ("MAPOVER", "UNWIND", "THREAD", "RXDENY")] for ops in lifetimes]      # the environment's action between lifetimes / the context a lifetime runs in: not operations
+    lifetimes = reallib.plain(lifetimes)      # without the environment's actions, the context markers and the evaluate-now-install-later indirection: not operations
     J = dict(corr=[], corr_c05=[], c01=[], c02=[], c03=[], c11=[], c12=[], c17=[], c05=[], c06=[], crashed=False)
     case = dict(id=hid, history=line)
     recs = h["recs"]
